@@ -29,6 +29,10 @@ CONDS = [
     ("sum==1", 2, lambda a, b: a + b == 1, lambda a, b: a + b == 1),
     ("a>b", 2, lambda a, b: a > b, lambda a, b: a > b),
     ("2a+b==2", 2, lambda a, b: 2 * a + b == 2, lambda a, b: 2 * a + b == 2),
+    # asymmetric arithmetic over three outcomes (may include postselected measurements)
+    ("2a+b+c==3", 3, lambda a, b, c: 2 * a + b + c == 3, lambda a, b, c: 2 * a + b + c == 3),
+    ("a+2b+4c>=5", 3, lambda a, b, c: a + 2 * b + 4 * c >= 5, lambda a, b, c: a + 2 * b + 4 * c >= 5),
+    ("a*b+c==1", 3, lambda a, b, c: a * b + c == 1, lambda a, b, c: a * b + c == 1),
 ]
 
 
@@ -38,7 +42,7 @@ def gen_program(rng, tier):
     max_m = 4 if tier == "quick" else 5
     for _ in range(rng.randint(3, 9)):
         r = rng.random()
-        if r < 0.3 and nm < max_m:
+        if r < 0.38 and nm < max_m:
             w = rng.randint(1, n)
             post = 0
             if rng.random() < 0.2:
@@ -46,7 +50,8 @@ def gen_program(rng, tier):
             prog.append(("measure", w, int(rng.random() < 0.35), post))
             nm += 1
         elif r < 0.55 and nm >= 1:
-            c = rng.choice([c for c in CONDS if c[1] <= nm])
+            avail = [c for c in CONDS if c[1] <= nm]
+            c = rng.choice([c for c in avail if c[1] == max(a[1] for a in avail)] if rng.random() < 0.5 else avail)
             args = rng.sample(range(nm), c[1])
             g = devsim.random_gate(rng, n, M, ["g1", "r1", "g2", "r2"])
             prog.append(("cond", CONDS.index(c), args, g))
@@ -198,9 +203,10 @@ def run(tier, seed):
     # ---- finite shots (statistical clause): probs-type results only, fixed seed, G-test at 1e-9 with one retry
     n_stat, stat_fail = 0, 0
     shots = 4000
-    for pi, (p, r) in enumerate(zip(progs[:30 if tier == "quick" else 300], res)):
+    for pi, (p, r) in enumerate(zip(progs[:45 if tier == "quick" else 400], res)):
         exp, W = expected(p, r)
-        if W < 1e-9 or any(s[0] == "measure" and s[3] for s in p["prog"]):
+        has_post = any(s[0] == "measure" and s[3] for s in p["prog"])
+        if W < 0.05:
             continue
         for method in ("one-shot", "tree-traversal"):
             for mi, m in enumerate(p["meas"]):
@@ -212,20 +218,23 @@ def run(tier, seed):
                     f = make_qfunc({**p, "meas": [m]})
                     prob = qp.set_shots(qp.QNode(f, dev, mcm_method=method), shots=sh)()
                     prob = prob[0] if isinstance(prob, tuple) else prob
-                    return np.asarray(prob) * sh
+                    # with postselection (hw-like) the probabilities are normalised over the valid shots: about sh*W of them
+                    return np.asarray(prob) * (round(sh * W) if has_post else sh)
                 try:
                     cnt = sample_once(1234 + seed + pi, shots)
                 except Exception as e:
                     viol.append(Violation(key=f"exception:shots:{method}:{type(e).__name__}", detail=f"{type(e).__name__}: {e}", replay={"program": p}))
                     continue
                 n_stat += 1
-                if abs(cnt.sum() - shots) > 1e-6:
+                if np.any(np.isnan(cnt)):
+                    continue
+                if not has_post and abs(cnt.sum() - shots) > 1e-6:
                     viol.append(Violation(key=f"shots:{method}:counts-do-not-total", detail=f"{cnt.sum()} != {shots}", replay={"program": p}))
                     continue
-                g, df = gtest(cnt, exp[mi], shots)
+                g, df = gtest(cnt, exp[mi], cnt.sum())
                 if chi2_sf(g, df) < 1e-9:
                     cnt2 = sample_once(99991 + seed + pi, 10 * shots)
-                    g2, df2 = gtest(cnt2, exp[mi], 10 * shots)
+                    g2, df2 = gtest(cnt2, exp[mi], cnt2.sum())
                     if chi2_sf(g2, df2) < 1e-9:
                         stat_fail += 1
                         viol.append(Violation(key=f"shots:{method}:{m[0]}:distribution",
